@@ -194,17 +194,31 @@ def run_replace(crystal, rq, prev=None, want_obj=False):
     return ev
 
 
-def run_chain(crystal, rq):
+def run_chain(crystal, rq, replicate=None):
     """C08: substitute one element of the pattern in every occurrence, search the original pattern again, substitute
     back.  Every step is an ordinary observed call judged by Trace_Replace; the second starts from the first's result."""
     ev1, obj = run_replace(crystal, rq, want_obj=True)
     out = [(rq, ev1)]
     if obj is None or ev1["exc"] != "none" or ev1["wf"] != "ok":
         return out
+    pre2 = ev1["post"]
+    if replicate is not None:
+        # replace -> replicate -> replace: anything remembered from the first call (cell, inverse, offsets) is stale now
+        v = rq["variant"]
+        s_, _ = findops.TOL_CLASSES[v["cls"]]
+        Q = np.eye(3) if v["Q"] is None else katoms.random_rotation(np.random.default_rng(v["Q"]))
+        try:
+            with contextlib.redirect_stderr(io.StringIO()):
+                obj = obj.replicate(tuple(replicate))
+            pre2 = project(obj, Rendering("r", s_, Q), residual_tol=1e-6 if v["jitter"] is None else 2.0 / 32)
+        except Exception:
+            return out
+        if pre2["wf"] != "ok":
+            return out
     subst = [r for r in crystal["rps"] if r["name"] == "subst"][0]["atoms"]
     rq2 = dict(rq, rp="back", chain=True, sp_atoms=subst, rp_atoms=crystal["pat"], id0=301, fn=1, fd=1, replace_all=False, ignore=False)
     rq2["variant"] = dict(rq["variant"], hints=None)
-    ev2 = run_replace(crystal, rq2, prev=(obj, ev1["post"]))
+    ev2 = run_replace(crystal, rq2, prev=(obj, pre2))
     out.append((rq2, ev2))
     return out
 
@@ -325,7 +339,7 @@ def _exec_chunk(task):
             # substitute-and-back chain (C08) on every fourth crystal
             rq = make_request(crystal, 1, rnd)
             rq.update(rp="subst", fn=1, fd=1, replace_all=False, ignore=False, chain=True)
-            for rq_i, ev in run_chain(crystal, rq):
+            for rq_i, ev in run_chain(crystal, rq, replicate=([2, 1, 1] if ci % 8 == 0 else None)):
                 out.append((ci, rq_i, ev))
     return out
 
